@@ -3,6 +3,7 @@ import Sentinel.DriverC13
 import Sentinel.DriverC02
 import Sentinel.DriverWorld
 import Sentinel.DriverC10
+import Sentinel.DriverC12
 /-! Generic driver: reads a trace (`case <id>` headers, `<op> -> <obs>` lines) from stdin, checks
 every case with the property's `checkCase`, prints one line per case. -/
 namespace Sentinel
@@ -12,6 +13,7 @@ def checkerFor (prop : String) : Option (List (String × String) → Verdict) :=
   | "C02" => some DriverC02.checkCase
   | "C01" | "C03" | "C04" | "C05" | "C06" | "C07" | "C08" | "C09" | "C11" => some DriverWorld.checkCase
   | "C10" => some DriverC10.checkCase
+  | "C12" => some DriverC12.checkCase
   | "C13" => some DriverC13.checkCase
   | _ => none
 
